@@ -14,7 +14,7 @@ fn any_state() -> RollingHash {
 
 /// slice, iterator, single-byte and += forms agree from an ARBITRARY state (<= 3 bytes).
 #[kani::proof]
-#[kani::unwind(5)]
+#[kani::unwind(9)]
 fn c19_roll_forms_agree() {
     let start = any_state();
     let buf: [u8; 3] = kani::any();
